@@ -276,6 +276,14 @@ class AndersonCD(BaseSolver):
         return results
 
     def custom_checks(self, X, y, datafit, penalty):
+        # block datafits return one Lipschitz constant per group, not per feature
+        if hasattr(datafit, "grp_ptr"):
+            raise ValueError(
+                f"{datafit.__class__.__name__} is block-separable (its Lipschitz "
+                "constants are group-wise) and is not compatible with solver "
+                "AndersonCD. Use `GroupBCD` instead."
+            )
+
         # check datafit support sparse data
         check_attrs(
             datafit, solver=self,
